@@ -414,8 +414,6 @@ class ArrayType(TypeBase):
                     "unexpected number of parts in dimension spec '%s'"
                     % dim)
 
-    INDEX_VAR_COUNTER = 0
-
     def __init__(self, dimension, element_type, index_vars=None):
         self.element_type = element_type
         if isinstance(dimension, str):
@@ -425,11 +423,12 @@ class ArrayType(TypeBase):
         if isinstance(index_vars, str):
             index_vars = tuple(iv.strip() for iv in index_vars.split(","))
         elif index_vars is None:
-            def get_index_var():
-                ArrayType.INDEX_VAR_COUNTER += 1
-                return "i%d" % ArrayType.INDEX_VAR_COUNTER
-
-            index_vars = tuple(get_index_var() for d in dimension)
+            # Number the default index variables from the innermost array
+            # outwards: distinct along every nesting path, and independent of
+            # what else was constructed in this process.
+            first = _count_nested_index_vars(element_type) + 1
+            index_vars = tuple(
+                    "i%d" % (first + i) for i in range(len(self.dimension)))
 
         if len(index_vars) != len(dimension):
             raise ValueError("length of 'index_vars' does not match length "
@@ -516,6 +515,23 @@ class StructureType(TypeBase):
         return any(
                 member_type.is_allocatable()
                 for name, member_type in self.members)
+
+
+def _count_nested_index_vars(fortran_type):
+    """Return the number of array axes nested (along the deepest path) in
+    *fortran_type*."""
+    if isinstance(fortran_type, ArrayType):
+        return (len(fortran_type.dimension)
+                + _count_nested_index_vars(fortran_type.element_type))
+    elif isinstance(fortran_type, PointerType):
+        return _count_nested_index_vars(fortran_type.pointee_type)
+    elif isinstance(fortran_type, StructureType):
+        return max(
+                (_count_nested_index_vars(member_type)
+                    for _, member_type in fortran_type.members),
+                default=0)
+    else:
+        return 0
 
 # }}}
 
